@@ -10,7 +10,7 @@
    the solvers' backward error and float rounding of the assembly are outside the proof. *)
 From Coq Require Import ZArith List Bool Lia String.
 From PB Require Import lib.SumZ lib.PySlice lib.Arr lib.Loop lib.LoopProofs C11.DtD C11.Table gen.GenBands
-                       C11.Banded C11.History C06.Model C06.Proofs C06.Model2D C06.Proofs2D C06.Vec gen.GenC06Vec C06.VecProofs C06.Order gen.GenC06Order C06.OrderProofs.
+                       C11.Banded C11.History C06.Model C06.Proofs C06.Model2D C06.Proofs2D C06.Vec gen.GenC06Vec C06.VecProofs C06.Order gen.GenC06Order C06.OrderProofs gen.GenC06EigShare C06.EigShare.
 Import ListNotations.
 Open Scope Z_scope.
 
@@ -267,6 +267,23 @@ Print Assumptions C06_order_sites_sound.
 Theorem C06_order_sites_pinned : ocheck GenC06Order.osites required = true.
 Proof. exact osites_checked. Qed.
 Print Assumptions C06_order_sites_pinned.
+
+(* ---------------- 2-D eigendecomposition path: each axis gets the eigenpairs of its OWN (points, diff_order, num_eigens).
+   The condition under which WhittakerSystem2D.reset_diagonals re-uses the rows' decomposition for the columns is read
+   off the current source on every run (gen/GenC06EigShare.v); it must compare all three components. *)
+Theorem C06_2d_eigen_share_sound : forall (T : Type) (E : key -> T) (c : option flags) (krow kcol : key),
+  flags_ok c = true -> cols_used E c krow kcol = E kcol.
+Proof. exact @share_sound. Qed.
+Print Assumptions C06_2d_eigen_share_sound.
+
+Theorem C06_2d_eigen_share_refuted : forall f : flags, flags_ok (Some f) = false ->
+  exists krow kcol : key, cols_used (fun k => k) (Some f) krow kcol <> kcol.
+Proof. exact share_refuted. Qed.
+Print Assumptions C06_2d_eigen_share_refuted.
+
+Theorem C06_2d_eigen_share_pinned : echeck = true.
+Proof. exact eigshare_checked. Qed.
+Print Assumptions C06_2d_eigen_share_pinned.
 
 (* non-vacuity: concrete instances (pentapy and LAPACK layouts) evaluate to calls that denote the
    documented matrices; the hypotheses of C06_returned_pair are satisfiable and a run converges *)
